@@ -58,9 +58,9 @@ CAPS = [
 # fault + caps: 100 big messages queued for a backend that dies in the flush, 100 more for the
 # fallback backend: each batch alone is below 4 MiB, together they are not
 FAULTS = [
-    {"kind": "flushfail765", "size": 32767,
+    {"kind": "flushfail765", "size": 32766,
      "h": ["msg"] * 100 + ["failready"] + ["msg"] * 100 + ["ready", "finish", "join"]},
-    {"kind": "flushfail765", "size": 32767,
+    {"kind": "flushfail765", "size": 32765,
      "h": ["msg"] * 100 + ["failready"] + ["msg"] * 28 + ["ready", "msg", "finish", "join"]},
 ]
 
@@ -184,6 +184,8 @@ def run(ctx):
                 per[k] = per.get(k, 0) + 1
                 keep.append(h)
         hists = keep
+    # every third history sends zero-length bodies while no backend has been released yet
+    hists = [dict(h, zero=(i % 3 == 0)) for i, h in enumerate(hists)]
     faults = FAULTS[:1] if ctx.quick else FAULTS
     hists = hists + CAPS + faults
     with open(ctx.path("sched.json"), "w") as fh:
